@@ -1127,7 +1127,8 @@ where
     let mut visited = HashSet::new();
     // Files we want to parse but haven't yet.
     let mut to_visit = Vec::new();
-    let root = path.parent().unwrap();
+    // `path` may lack a parent (an empty path or "/"): reading it fails later with a proper error.
+    let root = path.parent().unwrap_or_else(|| Path::new(""));
 
     if bundle_std {
         to_visit.push(FileOrLib::Lib("preamble"));
